@@ -86,7 +86,7 @@ impl<const M: usize> Sim<M> {
                     self.v("C02", format!("{what}: value of {} bytes reads back differently at byte {j}", T::N));
                 }
                 unsafe { write_pat(id, p as *mut u8, l.size()) };
-                self.blocks.push(SBlock { id, ptr: p, size: l.size(), align: l.align(), freeable: true, slot: p, slot_size: l.size() });
+                self.blocks.push(SBlock { id, ptr: p, size: l.size(), align: l.align(), freeable: true, slot: p, slot_size: l.size(), kept: false });
                 if self.blocks.iter().filter(|b| b.size > 0).count() >= 2 {
                     self.st(St::Live2);
                 }
@@ -221,7 +221,10 @@ impl<const M: usize> Sim<M> {
         let k = kept.get();
         if k != 0 {
             self.st(St::InitKept);
-            self.register("block kept by the initialiser", k, inner.size(), inner.align(), true, None);
+            let kid = self.register("block kept by the initialiser", k, inner.size(), inner.align(), true, None);
+            if let Some(b) = self.blocks.iter_mut().find(|b| b.id == kid) {
+                b.kept = true;
+            }
         }
         let mut ptr = 0;
         if init_err {
@@ -287,7 +290,7 @@ impl<const M: usize> Sim<M> {
                     self.v("C02", format!("{what}: value of {} bytes reads back differently at byte {j}", T::N));
                 }
                 unsafe { write_pat(id, p as *mut u8, tl.size()) };
-                self.blocks.push(SBlock { id, ptr: p, size: tl.size(), align: tl.align(), freeable: false, slot: p - off, slot_size: rl.size() });
+                self.blocks.push(SBlock { id, ptr: p, size: tl.size(), align: tl.align(), freeable: false, slot: p - off, slot_size: rl.size(), kept: false });
             }
         }
         if !init_err && !want_ok && outcome == OUT_OK {
